@@ -71,6 +71,15 @@ Theorem C19_mixed : forall s d, same_family s d = false ->
   /\ fmt1 (v1_of_pair s d) = PROXY ++ [SP] ++ UNKNOWN ++ CRLF /\ enc_addrs (v2_of_pair s d) = [].
 Proof. exact pair_mixed. Qed.
 
+(* both versions, one pair: the peer of a v1 sender and the peer of a v2 sender read the same endpoints *)
+Theorem C19_cross_version : forall cmd tr s d, wf_sock s = true -> wf_sock d = true ->
+  exists a1 hd2,
+    addresses_from_str (fmt1 (v1_of_pair s d)) = Ok a1
+    /\ p2 (wire cmd tr (v2_of_pair s d) []) = Ok hd2
+    /\ endpoints1 a1 = endpoints2 (haddresses hd2)
+    /\ endpoints1 a1 = pair_endpoints s d.
+Proof. exact pair_cross_version. Qed.
+
 (* the premises are satisfiable, and the round trip computes *)
 Example C19_example :
   wf_sock (SV4 [10; 0; 0; 1] 1234) = true /\ wf_sock (SV4 [192; 168; 1; 9] 443) = true
@@ -88,3 +97,4 @@ Print Assumptions C19_round_v2.
 Print Assumptions C19_wire_layout.
 Print Assumptions C19_text_layout.
 Print Assumptions C19_mixed.
+Print Assumptions C19_cross_version.
